@@ -1,0 +1,41 @@
+//! Verification hooks.
+//!
+//! Only compiled with `--cfg iroh_docs_verif`; without that flag none of this exists and the
+//! crate behaves exactly as before.
+#![allow(missing_docs)]
+
+use std::{
+    cell::Cell,
+    sync::atomic::{AtomicU64, Ordering},
+};
+
+// ---- H1: clock override -------------------------------------------------------------------
+
+const NO_OVERRIDE: u64 = u64::MAX;
+
+static CLOCK_MICROS: AtomicU64 = AtomicU64::new(NO_OVERRIDE);
+
+thread_local! {
+    static THREAD_CLOCK_MICROS: Cell<u64> = const { Cell::new(NO_OVERRIDE) };
+}
+
+/// Set (or clear) the process-wide wall clock override, in microseconds since the epoch.
+pub fn set_clock_micros(value: Option<u64>) {
+    CLOCK_MICROS.store(value.unwrap_or(NO_OVERRIDE), Ordering::SeqCst);
+}
+
+/// Set (or clear) the wall clock override of the calling thread; takes precedence over the
+/// process-wide override.
+pub fn set_thread_clock_micros(value: Option<u64>) {
+    THREAD_CLOCK_MICROS.with(|c| c.set(value.unwrap_or(NO_OVERRIDE)));
+}
+
+/// The overridden wall clock in microseconds, if any.
+pub(crate) fn clock_micros() -> Option<u64> {
+    let t = THREAD_CLOCK_MICROS.with(|c| c.get());
+    if t != NO_OVERRIDE {
+        return Some(t);
+    }
+    let g = CLOCK_MICROS.load(Ordering::SeqCst);
+    (g != NO_OVERRIDE).then_some(g)
+}
